@@ -262,7 +262,16 @@ def main():
     isolation_diffs = [(lines[k], impl[k], f) for k, f in zip(sample_idx, fresh) if k < len(impl) and impl[k] != f and f != "TIMEOUT" and impl[k] != "TIMEOUT"]
     run.cov["context_reuse_check"] = {"cases_rerun_fresh": len(sample_idx), "different": len(isolation_diffs), "s": round(time.time() - t0, 1)}
     if isolation_diffs:
-        vlib.infra_error(PROP, "harness modops: result depends on Context reuse: %r" % (isolation_diffs[0],))
+        # The same case gives different results on a Context that evaluated other graphs before and on a fresh Context:
+        # on the engine as it is this never happens (0 differences on every run so far), so it is not a harness artefact
+        # to be hidden behind an infrastructure error — it means module evaluation depends on what the thread/context
+        # evaluated earlier (e.g. the thread-local async-evaluation counter).  Report it with the case as replay; the
+        # comparison with the model below still decides which of the two results is the specified one.
+        case, reused, fresh1 = isolation_diffs[0]
+        run.violation({"kind": "counterexample", "class": "result-depends-on-context-history", "input": case,
+                       "impl_output": {"reused_context": reused, "fresh_context": fresh1},
+                       "obligation": "a module graph evaluates the same way on a fresh Context and on a Context that evaluated other graphs before",
+                       "how_to_rerun": "MODOPS_FRESH_CONTEXT=1 harness/target/debug/modops < case   vs   without the variable, after other cases"})
     stats = {"match": 0, "match_loads_unordered": 0, "mismatch": 0, "timeouts": tos, "model_fuel": 0,
              "impl_states": {}, "oracle_failures": {}}
     reported = set()
